@@ -513,11 +513,24 @@ def _filled_before_any_exit(F, store, af, cfld):
     only through its head, and no return lies between the allocation and the loop"""
     loops = cfg.loops(F)
     b0 = F.pos[store][0]
+    # locals that hold the count: stored into the count field (`look->partvals=partvals;`) or read from it once
+    count_locals = set()
+    for n_, nd_ in F.ex.items():
+        if nd_['k'] == 'assign' and nd_['op'] == '=' and n_ in F.pos:
+            l_ = F.ex[F.strip_casts(nd_['c'][0])]
+            r_ = F.ex[F.strip_casts(nd_['c'][1])]
+            if l_['k'] == 'member' and l_.get('field') == cfld and r_['k'] == 'ref' and r_['decl'].get('kind') == 'var':
+                count_locals.add(r_['decl']['id'])
+    for vid_, d_ in common.single_defs(F).items():
+        dn_ = F.ex[F.strip_casts(d_)]
+        if dn_['k'] == 'member' and dn_.get('field') == cfld:
+            count_locals.add(vid_)
     for h, body in loops.items():
         t = F.blocks[h].get('term')
         if not t or t.get('cond') is None:
             continue
-        if not any(F.ex[q]['k'] == 'member' and F.ex[q].get('field') == cfld for q in F.walk(t['cond'])):
+        if not any((F.ex[q]['k'] == 'member' and F.ex[q].get('field') == cfld) or
+                   (F.ex[q]['k'] == 'ref' and F.ex[q]['decl'].get('id') in count_locals) for q in F.walk(t['cond'])):
             continue
         fills = False
         for e in F.pos:
